@@ -27,6 +27,12 @@ pre_thread_execute(struct emu *emu, struct thread *th)
 		return -1;
 	}
 
+	/* Only threads that have not started yet can begin the execution */
+	if (th->state != TH_ST_UNKNOWN) {
+		err("cannot execute thread %d, has already been executed", th->tid);
+		return -1;
+	}
+
 	if (emu->ev->payload_size < 4) {
 		err("missing payload in thread %d execute event", th->tid);
 		return -1;
